@@ -2,7 +2,7 @@
    "Oracle" = the runtime's choice of visiting order at a Go map range: any function returning a
    permutation of the entries. Two replicas = two oracles. *)
 From Coq Require Import List NArith ZArith String Bool Permutation Sorted.
-From V.C01 Require Import Inventory Gen Covered Model SortProofs Proofs Block.
+From V.C01 Require Import Inventory Gen Covered Model SortProofs Proofs Block Harness HarnessProofs.
 Import ListNotations.
 
 (* ---- the defect ---- *)
@@ -50,6 +50,11 @@ Theorem C01_tx_sort_any_algorithm : forall l out, txs_ok l -> Permutation out l 
 Proof. exact sort_txs_any_algorithm. Qed.
 Print Assumptions C01_tx_sort_any_algorithm.
 
+(* the boolean guard the case evaluator applies to every generated transaction list implies txs_ok *)
+Theorem C01_txs_okb_sound : forall l, txs_okb l = true -> txs_ok l.
+Proof. exact txs_okb_sound. Qed.
+Print Assumptions C01_txs_okb_sound.
+
 (* ---- commutative keyed accumulations ---- *)
 Theorem C01_refund_add_order_indep : forall d1 d2 s, Permutation d1 d2 ->
   store_eq (refund_add d1 s) (refund_add d2 s).
@@ -78,44 +83,54 @@ Proof. exact write_leaves_order_indep. Qed.
 Print Assumptions C01_write_leaves_order_indep.
 
 (* ---- the block ---- *)
-(* VMExecutor.Execute = sort, per-transaction loop (transfer executor = repaired ChangeAssets; every
-   other executor = some function [other] of (payload, tx, state content), which is what an executor
-   without an iteration site is — the generated inventory is the evidence for "without"), after():
-   refund escrow additions and the pay-out of the height. Two replicas, any oracles: same state content
-   (hence same root), same receipts, same evicted markers. *)
-Theorem C01_block_deterministic :
-  forall (btag : N) (racct : N -> N) (other : N -> tx -> store -> store * receipt)
-         (refunds_of : store -> list refund_entry) (due_of : N -> store -> list (N * Z)),
-    (forall d t s s', store_eq s s' ->
-        store_eq (fst (other d t s)) (fst (other d t s')) /\ snd (other d t s) = snd (other d t s')) ->
-    (forall s s', store_eq s s' -> refunds_of s = refunds_of s') ->
-    (forall h s s', store_eq s s' -> due_of h s = due_of h s') ->
-    forall o1 o2 height txs s,
-      oracles_ok o1 -> oracles_ok o2 -> btag <> racct height -> Forall keys_ok txs ->
-      store_eq (fst (exec_block btag racct other refunds_of due_of o1 height txs s))
-               (fst (exec_block btag racct other refunds_of due_of o2 height txs s))
-      /\ snd (exec_block btag racct other refunds_of due_of o1 height txs s)
-         = snd (exec_block btag racct other refunds_of due_of o2 height txs s).
-Proof. exact exec_block_deterministic. Qed.
-Print Assumptions C01_block_deterministic.
+(* VMExecutor.Execute = sort; per-transaction loop (transfer executor = repaired ChangeAssets; every other
+   executor = some function [other] of (payload, tx, state content, executor context) - which is what an
+   executor without an iteration site is; the generated inventory is the evidence for "without");
+   after() = calcDifficulty, Add(context refunds), calculateRewardPerBlock (accumulate over proposers,
+   assign over validators), CalculateReward (list built in map order) -> Add, CheckAndMove(height).
+   Two replicas, any oracles at the six iteration sites: same state content (hence same root), same
+   receipts, same evicted markers. The hypotheses say that the opaque parts are functions of the state
+   CONTENT, and that the validator stake map has distinct keys (it is a Go map). *)
+Section BlockTheorems.
+  Variables (C : Type) (btag : N) (racct : N -> N)
+            (other : N -> tx -> store -> C -> store * C * receipt)
+            (difficulty : N -> store -> store) (refunds_of : C -> list refund_entry)
+            (castor_of : N -> store -> N * Z) (proposers_of validators_of : N -> store -> list (N * Z))
+            (next_height : N -> N) (due_of : N -> store -> list (N * Z)).
+  Hypothesis other_ext : forall d t s s' c, store_eq s s' ->
+    store_eq (fst (fst (other d t s c))) (fst (fst (other d t s' c))) /\
+    snd (fst (other d t s c)) = snd (fst (other d t s' c)) /\ snd (other d t s c) = snd (other d t s' c).
+  Hypothesis difficulty_ext : forall h s s', store_eq s s' -> store_eq (difficulty h s) (difficulty h s').
+  Hypothesis castor_ext : forall h s s', store_eq s s' -> castor_of h s = castor_of h s'.
+  Hypothesis proposers_ext : forall h s s', store_eq s s' -> proposers_of h s = proposers_of h s'.
+  Hypothesis validators_ext : forall h s s', store_eq s s' -> validators_of h s = validators_of h s'.
+  Hypothesis validators_nodup : forall h s, NoDup (map fst (validators_of h s)).
+  Hypothesis due_ext : forall h s s', store_eq s s' -> due_of h s = due_of h s'.
 
-(* Non-casting execution sorts first: for admissible lists even the order in which the proposer listed
-   the transactions is irrelevant. *)
-Theorem C01_block_list_order_irrelevant :
-  forall (btag : N) (racct : N -> N) (other : N -> tx -> store -> store * receipt)
-         (refunds_of : store -> list refund_entry) (due_of : N -> store -> list (N * Z)),
-    (forall d t s s', store_eq s s' ->
-        store_eq (fst (other d t s)) (fst (other d t s')) /\ snd (other d t s) = snd (other d t s')) ->
-    (forall s s', store_eq s s' -> refunds_of s = refunds_of s') ->
-    (forall h s s', store_eq s s' -> due_of h s = due_of h s') ->
-    forall o1 o2 height txs1 txs2 s,
-      oracles_ok o1 -> oracles_ok o2 -> btag <> racct height -> Forall keys_ok txs1 ->
-      txs_ok (map b_tx txs1) -> Permutation txs1 txs2 ->
-      store_eq (fst (exec_block btag racct other refunds_of due_of o1 height txs1 s))
-               (fst (exec_block btag racct other refunds_of due_of o2 height txs2 s))
-      /\ snd (exec_block btag racct other refunds_of due_of o1 height txs1 s)
-         = snd (exec_block btag racct other refunds_of due_of o2 height txs2 s).
-Proof. exact exec_block_list_order_irrelevant. Qed.
+  Let run := exec_block C btag racct other difficulty refunds_of castor_of proposers_of validators_of next_height due_of.
+
+  Theorem C01_block_deterministic : forall o1 o2 height txs s c,
+    oracles_ok o1 -> oracles_ok o2 -> btag <> racct height -> Forall keys_ok txs ->
+    store_eq (fst (run o1 height txs s c)) (fst (run o2 height txs s c))
+    /\ snd (run o1 height txs s c) = snd (run o2 height txs s c).
+  Proof.
+    exact (exec_block_deterministic C btag racct other difficulty refunds_of castor_of proposers_of validators_of
+             next_height due_of other_ext difficulty_ext castor_ext proposers_ext validators_ext validators_nodup due_ext).
+  Qed.
+
+  (* Non-casting execution sorts first: for admissible lists even the order in which the proposer listed
+     the transactions is irrelevant. *)
+  Theorem C01_block_list_order_irrelevant : forall o1 o2 height txs1 txs2 s c,
+    oracles_ok o1 -> oracles_ok o2 -> btag <> racct height -> Forall keys_ok txs1 ->
+    txs_ok (map b_tx txs1) -> Permutation txs1 txs2 ->
+    store_eq (fst (run o1 height txs1 s c)) (fst (run o2 height txs2 s c))
+    /\ snd (run o1 height txs1 s c) = snd (run o2 height txs2 s c).
+  Proof.
+    exact (exec_block_list_order_irrelevant C btag racct other difficulty refunds_of castor_of proposers_of validators_of
+             next_height due_of other_ext difficulty_ext castor_ext proposers_ext validators_ext validators_nodup due_ext).
+  Qed.
+End BlockTheorems.
+Print Assumptions C01_block_deterministic.
 Print Assumptions C01_block_list_order_irrelevant.
 
 (* ---- sub-chain reward call data (VMExecutor.generateCode): open finding ---- *)
@@ -172,4 +187,37 @@ Proof.
     repeat (destruct Ha as [<-|Ha]; [repeat (destruct Hb as [<-|Hb]; [cbn; split; intro; (reflexivity || discriminate)|]); try contradiction|]); contradiction.
   - intros a b Ha Hb. cbn in Ha, Hb.
     repeat (destruct Ha as [<-|Ha]; [repeat (destruct Hb as [<-|Hb]; [cbn; intros; (reflexivity || congruence || discriminate)|]); try contradiction|]); contradiction.
+Qed.
+
+(* the block theorem's hypotheses are satisfiable: concrete opaque parts, the identity and the reversing
+   runtime, a block with the executed self-transfer *)
+Definition ex_oracles_id : oracles :=
+  Build_oracles (fun _ l => l) (fun l => l) (fun l => l) (fun l => l) (fun l => l) (fun l => l).
+Definition ex_oracles_rev : oracles :=
+  Build_oracles (fun _ => @rev target) (@rev refund_entry) (@rev (N * Z)) (@rev (N * Z)) (@rev (N * Z)) (@rev (N * Z)).
+
+Example C01_example_block :
+  let other := fun (_ : N) (_ : tx) (s : store) (c : unit) => (s, c, ROther true 0) in
+  let run := exec_block unit 0 (fun h => h + 1)%N other (fun _ s => s) (fun _ => [(7%N, [(1%N, 3%Z)])])
+               (fun _ _ => (1%N, 10%Z)) (fun _ _ => [(1%N, 2%Z); (2%N, 4%Z)]) (fun _ _ => [(3%N, 5%Z); (1%N, 6%Z)])
+               (fun h => h + 100)%N (fun _ s => [(1%N, s (6%N, 1%N))]) in
+  let blk := [mkB (mkTx 0 "0x01" 1 0 11) (PTransfer w_src w_targets); mkB (mkTx 0 "0x02" 2 0 22) (POther 0)] in
+  let s0 : store := fun c => if (fst c =? 0)%N then w_state (snd c) else 0%Z in
+  oracles_ok ex_oracles_id /\ oracles_ok ex_oracles_rev /\ Forall keys_ok blk /\
+  store_eq (fst (run ex_oracles_id 5%N blk s0 tt)) (fst (run ex_oracles_rev 5%N blk s0 tt)) /\
+  snd (run ex_oracles_id 5%N blk s0 tt) = snd (run ex_oracles_rev 5%N blk s0 tt) /\
+  snd (run ex_oracles_rev 5%N blk s0 tt) = [(22%N, ROther true 0); (11%N, RTransfer true (Some 5%Z))].
+Proof.
+  cbn zeta.
+  assert (Oid : oracles_ok ex_oracles_id) by (repeat split; repeat intro; apply Permutation_refl).
+  assert (Orev : oracles_ok ex_oracles_rev) by (repeat split; repeat intro; apply Permutation_sym, Permutation_rev).
+  assert (K : Forall keys_ok [mkB (mkTx 0 "0x01" 1 0 11) (PTransfer w_src w_targets); mkB (mkTx 0 "0x02" 2 0 22) (POther 0)]).
+  { repeat constructor; cbn; intuition discriminate. }
+  split; [exact Oid|]. split; [exact Orev|]. split; [exact K|].
+  match goal with |- ?A /\ ?B /\ _ => cut (A /\ B); [intros [HA HB]; split; [exact HA|split; [exact HB|vm_compute; reflexivity]]|] end.
+  apply C01_block_deterministic; auto.
+  all: try (intros; cbn; auto; fail).
+  - intros. cbn. repeat constructor; cbn; intuition discriminate.
+  - intros h s s' E. now rewrite E.
+  - cbn. discriminate.
 Qed.
